@@ -96,9 +96,39 @@ def h_redeemscript(ex, n):
     ex.check(kw.get('script_type') == want_type and kw.get('witness_type') == wt and kw.get('network') == 'bitcoin', 'address-type-follows-witness-type')
 
 
+def h_threshold_kept(ex):
+    """an input that a cosigner wallet rebuilds from a handed-over (unsigned or partly signed) transaction: the real
+    Input.__init__, given the wallet's m as sigs_required and the scriptSig found in the transaction, keeps the
+    threshold m - a script that carries no threshold of its own (empty, or the 0020<hash> program push of a P2SH-nested
+    segwit multisig input) must not reset it"""
+    from harness import c01
+    T, E, S, K = c01._mods()
+    n = ex.choose('n', [2, 3])
+    m = ex.choose('m', list(range(1, n + 1)))
+    kind = ex.choose('scriptsig', ['empty', 'p2sh_p2wsh program push'])
+    wt = {'empty': ex.choose('witness_type', ['legacy', 'segwit']) if kind == 'empty' else None}.get(kind) or 'p2sh-segwit'
+    txid = ex.bytes('txid', 32)
+    ex.assume(txid[0] >= 0x80)          # (a txid of ASCII hex digits would be hex-decoded by to_bytes: C06 finding)
+    if kind == 'empty':
+        us = b''
+    else:
+        us = b'\x22\x00\x20' + ex.bytes('program', 32)
+    with shims.unshimmed():
+        keys = [K.Key(bytes([2]) + bytes([0x80 + i]) * 32) for i in range(n)]          # concrete cosigner keys
+    if not ex.concrete:
+        shims.install(T, _logger=c01._NullLog(), Address=c01._FakeAddress)
+    st = {'legacy': 'p2sh_multisig', 'segwit': 'p2sh_multisig', 'p2sh-segwit': 'p2sh_p2wsh'}[wt]
+    inp = T.Input(prev_txid=txid if not ex.concrete else bytes(txid), output_n=0, keys=keys, unlocking_script=us if not ex.concrete else bytes(us),
+                  script_type=st, sigs_required=m, sort=True, value=100000, witness_type=wt, network='bitcoin', strict=False)
+    ex.check(inp.sigs_required == m, 'imported-input-keeps-the-wallets-threshold')
+    ex.check(len(inp.keys) == n, 'imported-input-keeps-the-cosigner-keys')
+
+
 def jobs(tier):
     q = tier == 'quick'
     J = [Job('redeemscript_%d' % n, h_redeemscript, W=40, setup=setup, params=dict(n=n), budget_s=3000) for n in ([1, 2, 3, 4] if q else [1, 2, 3, 4, 5])]
+    from harness import c01
+    J.append(Job('threshold_kept', h_threshold_kept, W=72, setup=c01.setup_init, budget_s=1500))
     J.append(Job('counting', c02.h_counting, W=40, setup=c02.setup, params=dict(maxn=3 if q else 4), budget_s=3000))
     J.append(Job('placement', c02.h_placement, W=40, setup=c02.setup, params=dict(maxn=3 if q else 4, ncalls=3 if q else 4), budget_s=3000))
     return J
